@@ -10,10 +10,10 @@ ID = 'C13'
 LEAN_MODULE = 'PncProofs.C13'
 LEAN_FILE = 'PncProofs/C13.lean'
 NAMESPACE = 'Props.C13'
-LEAN_CONE = ['PncModel.Words', 'PncModel.Camx.Uamiv', 'PncModel.Camx.Slab', 'PncProofs.WordsLemmas', 'PncProofs.SlabLemmas',
+LEAN_CONE = ['PncModel.Words', 'PncModel.Camx.Uamiv', 'PncModel.Camx.Slab', 'PncModel.Camx.SlabRead', 'PncProofs.WordsLemmas', 'PncProofs.SlabLemmas', 'PncProofs.SlabReadLemmas',
              'PncProofs.BridgeLemmas', 'PncProofs.C13']
-LEMMA_FILES = ['PncProofs/SlabLemmas.lean', 'PncProofs/BridgeLemmas.lean']
-REQUIRED_THEOREMS = ['chunk_records', 'leading_eq', 'mm_decode_encode', 'single_step_rejected']
+LEMMA_FILES = ['PncProofs/SlabLemmas.lean', 'PncProofs/BridgeLemmas.lean', 'PncProofs/SlabReadLemmas.lean']
+REQUIRED_THEOREMS = ['chunk_records', 'leading_eq', 'mm_decode_encode', 'single_step_rejected', 'read_decode_encode', 'readers_agree']
 RULE = ('wind files (both time-header variants, 1-9 time steps) and files of the formats that have both reader families and a uniform layout (one3d, humidity, vertical '
         'diffusivity, temperature, height/pressure: 2-4 steps, 1-3 layers, 1-4 rows and columns, hour steps of 1 or 3 '
         'incl. midnight and year-end starts, also 6, 12 and 24 hour steps over up to 6 steps (several midnights), readers called with and without rows/columns, any float32 payload; gridded average files in the domain of the record '
@@ -22,8 +22,10 @@ RULE = ('wind files (both time-header variants, 1-9 time steps) and files of the
         'flags where both define them) are compared with the Lean reader model and with each other; non-trivial = at '
         'least two of nz, ny*nx, nt differ from each other and from 1')
 ASSUMPTIONS = ['wind: layout (Lean encoder) and both readers are compared with the encoded content; its reader inference is not modelled; grids of at least 4 cells (records of 4, 8 or 12 bytes are indistinguishable from the closing / header records)',
-               'the record readers are compared with the model and the Memmap reader, not modelled line by line: their time '
-               'arithmetic (HHMM floats, 2400-per-day differences) is exercised, not proved',
+               'record readers: the one3d family and height/pressure are modelled (SlabRead.lean: layer count, step, end search, '
+               'timerange, record positions over integer HHMM arithmetic) and proved to present the written content on regular time '
+               'axes (read_decode_encode, readers_agree); Python float division int(a/b) is taken to equal integer truncating division '
+               'for these magnitudes; the temperature, wind and uamiv record readers are compared, not modelled',
                'uamiv record reader: only AVERAGE/INSTANT files with an odd hour step within one day and every count >= 2 (see DESIGN 0.5)']
 MIN_NONTRIVIAL = {'quick': 40, 'thorough': 400}
 NPROC = {'quick': 4, 'thorough': 12}
@@ -47,6 +49,22 @@ def gen(rng, tier):
             c['family'] = 'slab'
             # both reader families accept a call without rows and columns for these formats
             c['noshape'] = c['fmt'] != 'height_pressure' and rng.random() < 0.25
+            if i % 15 == 2 and S.FORMATS[c['fmt']][0] != 'temperature' and len(c['flags']) >= 3:
+                # outside the property's domain, inside the model's: an irregular time axis (the record readers
+                # extrapolate the first step); only the record reader is compared with its Lean model here
+                fl = [list(x) for x in c['flags']]
+                k = rng.choice(['late', 'dup', 'back', 'gap'])
+                if k == 'late':
+                    fl[-1][1] = (fl[-1][1] + 100) % 2400
+                elif k == 'dup':
+                    fl[-1] = list(fl[-2])
+                elif k == 'back':
+                    fl[-1] = list(fl[0])
+                else:
+                    fl[1][1] = (fl[1][1] + 200) % 2400
+                c['flags'] = fl
+                c['irregular'] = k
+                c['noshape'] = False
         out.append(c)
     return out
 
@@ -136,6 +154,8 @@ def agree(case, out, res):
             if d:
                 return '%s reader: %s' % (which, d)
         return None
+    if case.get('irregular'):
+        return _agree_read_model(case, res, True)
     # the python reference encoder against the Lean encoder, the spec view against the reader model
     enc, spec = lib.run_model(['bin slab-enc ' + S.lean_steps(case),
                                'bin slab-view %s %s' % (S.FORMATS[case['fmt']][0], S.lean_steps(case))])
@@ -152,11 +172,39 @@ def agree(case, out, res):
     d = _diff_slab(kv, res['read'], False)
     if d:
         return 'Read reader: ' + d
+    return _agree_read_model(case, res, False)
+
+
+def _agree_read_model(case, res, irregular):
+    """the record readers of the one3d family and of height/pressure files against their own Lean model
+    (time arithmetic: layer count, step, end search, timerange, record positions)"""
+    kind = S.FORMATS[case['fmt']][0]
+    if kind not in ('one3d', 'height_pressure'):
+        return None
+    rd = lib.run_model(['bin slab-rd %d %s' % (1 if kind == 'height_pressure' else 0, res['hex'])])[0]
+    r = res['read']
+    if 'err' in r:
+        if irregular and rd.startswith('err'):
+            return None
+        return 'record reader raised %s, its model says %s' % (r['err'], rd[:40])
+    if not rd.startswith('ok '):
+        return 'record-reader model: %s, the library read the file' % rd[:40]
+    _, rk = lib.parse_kv('x ' + rd[3:])
+    if (float(rk['nt']), float(rk['nz'])) != (float(r['nt']), float(r['nz'])):
+        return 'record reader nt,nz model=%s,%s impl=%s,%s' % (rk['nt'], rk['nz'], r['nt'], r['nz'])
+    got = ';'.join(x.split('~')[1] for x in r['vars'].split(';'))
+    if rk['vars'] != got:
+        return 'record reader data differ from its model'
+    want = ','.join('%d:%d' % (int(d_), int(t_)) for d_, t_ in r.get('timerange', []))
+    if 'timerange' in r and rk['times'] != (want or '-'):
+        return 'record reader timerange model=%s impl=%s' % (rk['times'], want)
     return None
 
 
 def oracle(case, res):
     """the two readers against each other and against what was encoded (no model)"""
+    if case.get('irregular'):
+        return None
     a, b = res['memmap'], res['read']
     if 'err' in a or 'err' in b:
         return 'a reader raised on a valid file: memmap=%s read=%s' % (a.get('err'), b.get('err'))
@@ -206,6 +254,8 @@ def classify(case, failure, model_out):
 
 
 def nontrivial(case, res):
+    if case.get('irregular'):
+        return False
     if case['family'] in ('uamiv', 'wind'):
         return True
     vals = {case['nz'], case['nx'] * case['ny'], len(case['flags'])}
@@ -216,6 +266,6 @@ def distribution(recs):
     d = {}
     for r in recs:
         c = r['case']
-        k = c['fmt'] if c['family'] in ('slab', 'wind') else 'uamiv'
+        k = (c['fmt'] if c['family'] in ('slab', 'wind') else 'uamiv') + ('_irregular' if c.get('irregular') else '')
         d[k] = d.get(k, 0) + 1
     return d
